@@ -123,8 +123,14 @@ class TraceFS:
         return TraceFile(self.files[url], self.log)
 
 
+_TRACE_CLS = None
+
+
 def register_trace_protocol():
     """A custom fsspec protocol `tracemem://` (memory filesystem whose files log seek/read)."""
+    global _TRACE_CLS
+    if _TRACE_CLS is not None:
+        return _TRACE_CLS
     import fsspec
     from fsspec.implementations.memory import MemoryFileSystem
 
@@ -179,6 +185,7 @@ def register_trace_protocol():
             return getattr(self._f, name)
 
     fsspec.register_implementation("tracemem", TraceMemFS, clobber=True)
+    _TRACE_CLS = TraceMemFS
     return TraceMemFS
 
 
